@@ -7,7 +7,7 @@ from vk import refmodel as rm, strategies as S
 from vk.build import build, st_name
 
 ID = 'C18'
-RULE = ('Hypothesis-generated scan circuits (data inputs, a clock that reaches only clock pins, scan-in ports, outputs, DFF-kind flip-flops with '
+RULE = ('Part many: a fixed two-cell scan design with 4096..9000 patterns. Part patterns: Hypothesis-generated scan circuits (data inputs, a clock that reaches only clock pins, scan-in ports, outputs, DFF-kind flip-flops with '
         'next-state logic, optionally a latch next to them) x 1..3 scan chains partitioning the flip-flops in random order x inversion markers at '
         'random places (directly after scan-in, before scan-out, doubled) x cell names "top.ff.SI" or plain x signal groups _pi/_po in random port '
         'order plus distractor groups x 2..5 patterns in stuck-at style (load_unload + *_capture) or launch-on-capture style (load_unload + '
@@ -300,4 +300,25 @@ def prop(case):
     return Obs(inner[0] and npat >= 2, labels, checks=3 * s_len * npat)
 
 
-PARTS = [Part('patterns', prop, strategy=cases, quick=(8, 250), thorough=(16, 2500))]
+def enum_many(tier):
+    """pattern sets far longer than the generated 2..5 patterns (assembly that works on the pattern axis in blocks)"""
+    for npat in ([4200] if tier == 'quick' else [4096, 4097, 4200, 9000]):
+        nl = dict(pi=3, st=[dict(t='D', k='DFF', d='g0', c='i1'), dict(t='D', k='DFFX1', d='s0', c='i1')],
+                  g=[dict(f='XOR', k='xor2', i=['i0', 's1'])], po=['s1'], style='cells',
+                  w={'i0': 'D', 'i1': 'F', 's1': 'F', 's0': 'D', 'g0': 'D'}, ports=['i0', 'i1', 'i2', 'o0'], rev=False)
+        x = 0x51ed27 + npat
+        pats = []
+        for i in range(npat):
+            ch = []
+            for _ in range(12):
+                x = (x * 6364136223846793005 + 1442695040888963407) % (1 << 64)
+                ch.append((x >> 35) & 0xffff)
+            pats.append(dict(style=['sa', 'loc', 'loc', 'loc_noP'][ch[0] % 4], loads=[''.join('0011N'[c % 5] for c in ch[1:3])],
+                             unloads=[''.join('LLHHX'[c % 5] for c in ch[3:5])], pi1=['0011N'[c % 5] for c in ch[5:8]],
+                             pi2=['0011N'[c % 5] for c in ch[8:11]], po=['LHX'[ch[11] % 3]], capP=bool(ch[0] & 4), launchP=bool(ch[0] & 8)))
+        yield dict(nl=nl, ndata=1, chains=[dict(cells=[1, 0], marks=[0, 1, 0], si='i2', so='o0', dotted=False)], pats=pats, latch=False,
+                   pi_order=[2, 0, 1], po_order=[0], brk=npat * 3 + 1)
+
+
+PARTS = [Part('many', prop, enumerate=enum_many, quick=(1, 0), thorough=(4, 0)),
+         Part('patterns', prop, strategy=cases, quick=(8, 250), thorough=(16, 2500))]
